@@ -41,6 +41,17 @@ class HCC(Harness):
             for a in (U, X, lb, ub):
                 for v in np.asarray(_raw(a)).ravel():
                     eng.assume(z3.And(v.e >= -64, v.e <= 64))
+        if p.get("zero_twin"):
+            # rows 0 and 1 are the same point, written once with +0.0 and once with -0.0 in the first coordinate
+            # (force_to_grid yields -0.0 for a candidate snapped onto 0 from below): numerically one candidate
+            assert N >= 2
+            U = U.astype(object) if eng.concrete else U
+            for d in range(1, D):
+                U[1, d] = U[0, d]
+            U[0, 0] = 0.0
+            U[1, 0] = -0.0
+            if eng.concrete:
+                U = U.astype(float)
         if infc:
             lb = lb.astype(object) if eng.concrete else lb
             ub = ub.astype(object) if eng.concrete else ub
